@@ -159,8 +159,13 @@ def replay_file(pid, path):
     from . import harness as H
     R.build_replay()
     rec = json.load(open(path))
-    nat = H.run_replay(rec['scenario'])['steps'][0]
-    same = nat == rec.get('native')
+    steps_now = H.run_replay(rec['scenario'])['steps']
+    recorded = rec.get('native')
+    if isinstance(recorded, list):                 # a history: every step was recorded
+        nat, same = steps_now, steps_now == recorded
+    else:                                          # one request (or the second of a composed pair)
+        same = recorded in steps_now
+        nat = steps_now[-1] if same and steps_now[-1] == recorded else steps_now[0]
     print(json.dumps({'signature': rec.get('signature'), 'native_now': nat, 'same_as_recorded': same}, indent=1)[:6000])
     if same:
         print('VIOLATION property=%s replay=%s' % (pid, path))
